@@ -157,3 +157,20 @@ func verifHeapRemove(i int) *tssItem { return heap.Remove(&tssQ, i).(*tssItem) }
 //@   noframe
 //@   requires conn != nil && conn.c != nil && log != nil
 //@   loop 0 invariant capof(buf) == 98 && offsetof(buf) == 0 && capof(oob) == 64 && offsetof(oob) == 0
+
+// ---- the IP listener: one iteration of the receive loop per datagram ----
+// lastpkt() is the datagram as received, lastsent() the datagram handed to the socket, calls(...) counts socket calls.
+//@ pred li(p) = (p[0] >> 6)
+//@ pred vn(p) = ((p[0] >> 3) & 7)
+//@ pred md(p) = (p[0] & 7)
+//@ pred wellFormedHeader(p) = (len(p) >= 48 && (li(p) == 0 || li(p) == 3) && ((2 <= vn(p) && vn(p) <= 4 && md(p) == 3) || (vn(p) == 1 && md(p) == 0)))
+
+//@ func runIPServer
+//@   noreturn
+//@   noframe
+//@   requires conn != nil && provider != nil && log != nil && mtrcs != nil
+//@   callsite ntp.DecodePacket 0 scope len(buf) <= 48
+//@   loop 0 iterensures once: mathint(calls("UDPConn.WriteToUDPAddrPort")) <= mathint(prev(calls("UDPConn.WriteToUDPAddrPort")))+1
+//@   loop 0 iterensures silent: !wellFormedHeader(lastpkt()) ==> calls("UDPConn.WriteToUDPAddrPort") == prev(calls("UDPConn.WriteToUDPAddrPort"))
+//@   loop 0 iterensures answered: lastreadok() && wellFormedHeader(lastpkt()) ==> mathint(calls("UDPConn.WriteToUDPAddrPort")) == mathint(prev(calls("UDPConn.WriteToUDPAddrPort")))+1
+//@   loop 0 iterensures reply: calls("UDPConn.WriteToUDPAddrPort") != prev(calls("UDPConn.WriteToUDPAddrPort")) ==> len(lastsent()) == 48 && lastsent()[0]&7 == 4 && (lastsent()[0]>>3)&7 == 4 && lastsent()[1] == 1
